@@ -395,7 +395,7 @@ type c12APICase struct {
 	Side  int    `json:"side"`
 }
 
-var c12APIKinds = []string{"close-then-io", "double-close", "write-after-closewrite", "early-closewrite", "failed-handshake-sticky", "early-appdata", "cancel", "write-error-sticky"}
+var c12APIKinds = []string{"close-then-io", "double-close", "write-after-closewrite", "early-closewrite", "failed-handshake-sticky", "early-appdata", "cancel", "write-error-sticky", "deadline-mid-record"}
 
 func c12RunAPI(c c12APICase) (sig, msg string, nt bool) {
 	buf := make([]byte, 32)
@@ -446,6 +446,79 @@ func c12RunAPI(c c12APICase) (sig, msg string, nt bool) {
 			if n, err := y.Read(buf); n != 0 || err != io.EOF {
 				return "peer-eof-after-closewrite", fmt.Sprintf("peer Read returned (%d, %v), want io.EOF", n, err), true
 			}
+		}
+		return "", "", true
+	case "deadline-mid-record":
+		// A read deadline expires while only part of a record (J bytes: inside the header or inside the
+		// body) has arrived; the deadline is then extended. Variant A (J even): the rest arrives - the
+		// data must come out whole. Variant B (J odd): the transport ends - that is a truncation inside
+		// a record (unexpected EOF), not a clean end of stream.
+		cli, srv, sim, err := c12Established(c.Suite)
+		if err != nil {
+			return "honest-failed", err.Error(), false
+		}
+		x, y, xi := cli, srv, 0
+		if c.Side == 1 {
+			x, y, xi = srv, cli, 1
+		}
+		var staged []byte
+		sim.ends[1-xi].edit = func(idx int, rec []byte) [][]byte {
+			staged = append(staged, rec...)
+			return nil
+		}
+		payload := c01Payload(300, 9)
+		if _, err := y.Write(payload); err != nil {
+			return "honest-failed", err.Error(), false
+		}
+		k := []int{1, 2, 3, 4, 5, 6, 40, 200}[c.J/2%8]
+		if k >= len(staged) {
+			return "harness", "record shorter than expected", false
+		}
+		sim.ends[1-xi].inject(staged[:k])
+		type rr struct {
+			n   int
+			err error
+		}
+		buf := make([]byte, 1000)
+		ch := make(chan rr, 1)
+		go func() { n, err := x.Read(buf); ch <- rr{n, err} }()
+		xe := sim.ends[xi]
+		for i := 0; i < 40000; i++ { // until the reader has taken the partial record and waits for more
+			sim.mu.Lock()
+			waiting := xe.blocked > 0 && len(xe.in) == 0
+			sim.mu.Unlock()
+			if waiting {
+				break
+			}
+			time.Sleep(50 * time.Microsecond)
+		}
+		x.SetReadDeadline(time.Now().Add(-time.Second))
+		var r1 rr
+		select {
+		case r1 = <-ch:
+		case <-time.After(10 * time.Second):
+			return "harness", "Read did not return when its deadline passed", false
+		}
+		if r1.n != 0 || r1.err == nil {
+			return "deadline-read", fmt.Sprintf("Read with %d of %d record bytes arrived and an expired deadline returned (%d, %v)", k, len(staged), r1.n, r1.err), true
+		}
+		x.SetReadDeadline(time.Time{})
+		if c.J%2 == 0 {
+			sim.ends[1-xi].inject(staged[k:])
+			sim.ends[1-xi].cutNow() // nothing more will come: a reader that lost bytes gets an error instead of waiting
+			n, err := io.ReadFull(x, buf[:len(payload)])
+			if err != nil || !bytes.Equal(buf[:n], payload) {
+				return "data-lost-after-deadline", fmt.Sprintf("a read deadline expired with %d of %d record bytes arrived and was then extended; once the rest arrived Read returned %d bytes, error %v (payload intact: %v)", k, len(staged), n, err, bytes.Equal(buf[:n], payload)), true
+			}
+			return "", "", true
+		}
+		sim.ends[1-xi].cutNow()
+		n, err := x.Read(buf)
+		if n != 0 || !errors.Is(err, io.ErrUnexpectedEOF) {
+			return "truncation-after-deadline", fmt.Sprintf("a read deadline expired with %d of %d record bytes arrived and was extended, then the transport ended: Read returned (%d, %v), want io.ErrUnexpectedEOF", k, len(staged), n, err), true
+		}
+		if n2, err2 := x.Read(buf); n2 != 0 || err2 == nil || err2 == io.EOF {
+			return "truncation-after-deadline", fmt.Sprintf("second Read after the truncation returned (%d, %v)", n2, err2), true
 		}
 		return "", "", true
 	case "write-error-sticky":
@@ -744,7 +817,7 @@ func TestVF_C12(t *testing.T) {
 	}
 	recB.SetExhaustive(vfThorough(), fmt.Sprintf("%d alert cases (5 levels x 256 codes x 2 roles in the thorough tier)", j))
 
-	recC := vfRec("C12", "C12c-api", "API histories: Close then Read/Write, double Close, Write after CloseWrite (read half still usable, peer sees EOF), CloseWrite before completion, failed handshake stays failed (Handshake, Read, Write), application data injected in the clear before every record of the handshake, context cancellation before and right after every transport operation of the handshake (including the last one), a Write failing on a transport write timeout (before the first / between the records of one payload) must stay failed after the deadline is cleared and the peer sees only a prefix; both sides, suites GCM and CBC; distinct = the case")
+	recC := vfRec("C12", "C12c-api", "API histories: Close then Read/Write, double Close, Write after CloseWrite (read half still usable, peer sees EOF), CloseWrite before completion, failed handshake stays failed (Handshake, Read, Write), application data injected in the clear before every record of the handshake, context cancellation before and right after every transport operation of the handshake (including the last one), a read deadline that expires with 1..6, 40 or 200 bytes of a record arrived and is then extended (the rest arrives: data whole; the transport ends: unexpected EOF), a Write failing on a transport write timeout (before the first / between the records of one payload) must stay failed after the deadline is cleared and the peer sees only a prefix; both sides, suites GCM and CBC; distinct = the case")
 	k := 0
 	for _, suite := range suites {
 		for side := 0; side < 2; side++ {
@@ -759,6 +832,8 @@ func TestVF_C12(t *testing.T) {
 					maxJ = 14
 				case "write-error-sticky":
 					maxJ = 5
+				case "deadline-mid-record":
+					maxJ = 15
 				}
 				js := []int{}
 				for jj := 0; jj <= maxJ; jj++ {
